@@ -98,6 +98,7 @@ func c13HandlerEarly(kind Kind, rec *c13Recorder, early bool, opts ...connect.Ha
 			}
 			got = append(got, cloneBytes(m.Value))
 			rec.retain("handler-recv:"+id, m.Value)
+			rec.retainMsg("handler-recv-message:"+id, m)
 			if early {
 				break
 			}
@@ -130,6 +131,9 @@ type c13Recorder struct {
 	live     [][]byte
 	copies   [][]byte
 	labels   []string
+	msgs     []*BV    // message objects handed to user code ...
+	msgCopy  [][]byte // ... and what they held on receipt
+	msgLabel []string
 	errs     []error  // error values handed to user code ...
 	errMeta  []string // ... and what their metadata said on receipt
 	errLabel []string
@@ -154,6 +158,19 @@ func (r *c13Recorder) retainErr(label string, err error) {
 	r.errLabel = append(r.errLabel, label)
 }
 
+// retainMsg keeps the message object itself (not only its bytes): a library
+// that recycles message objects changes it under the user's feet.
+func (r *c13Recorder) retainMsg(label string, m *BV) {
+	if m == nil {
+		return
+	}
+	r.mu.Lock()
+	defer r.mu.Unlock()
+	r.msgs = append(r.msgs, m)
+	r.msgCopy = append(r.msgCopy, cloneBytes(m.Value))
+	r.msgLabel = append(r.msgLabel, label)
+}
+
 func (r *c13Recorder) retain(label string, b []byte) {
 	r.mu.Lock()
 	defer r.mu.Unlock()
@@ -166,6 +183,11 @@ func (r *c13Recorder) check() string {
 	for i := range r.live {
 		if !bytes.Equal(r.live[i], r.copies[i]) {
 			return fmt.Sprintf("%s: value handed to user code changed afterwards: was %s, now %s", r.labels[i], shortBytes(r.copies[i]), shortBytes(r.live[i]))
+		}
+	}
+	for i, m := range r.msgs {
+		if !bytes.Equal(m.Value, r.msgCopy[i]) {
+			return fmt.Sprintf("%s: message object handed to user code changed afterwards: held %s, now holds %s", r.msgLabel[i], shortBytes(r.msgCopy[i]), shortBytes(m.Value))
 		}
 	}
 	for i, e := range r.errs {
